@@ -114,6 +114,69 @@ def k4_trees(run, nmax):
     return good
 
 
+def flox_tree_cases(run, rng, nmax, extra):
+    """K2: flox.dask_array_ops._tree_reduce called directly on a fake ArrayLayer (n blocks along the reduced axis, optionally a
+    leading kept axis with several blocks, every split_every): the tree it wires for the cohort's single output key is rebuilt
+    from the graph dictionary and compared with FloxTree.flox_tree; the number of levels it used must satisfy n <= k^depth"""
+    import flox.dask_array_ops as ops
+    from flox.lib import ArrayLayer
+
+    def rebuild(dsk, key, leafname, red_pos):
+        if key[0] == leafname:
+            return ("L", int(key[red_pos]))
+        task = dsk[key]
+        from dask.core import flatten
+        return ("N", [rebuild(dsk, kk, leafname, red_pos) for kk in flatten([task[1]])])
+
+    todo = [(n, k, 0) for n in range(1, nmax + 1) for k in sorted({2, 3, 4, 5, 8, n, max(2, n // 2)}) if k >= 2]
+    todo += [(n, k, lead) for n in (5, 16, 17, 19, 20, 27, 28) for k in (2, 3, 4) for lead in (1, 3)]
+    for _ in range(extra):
+        k = rng.choice([2, 3, 4, 4, 6, 8, 16])
+        j = rng.randint(1, 4)
+        n = max(1, min(700, k ** j + rng.choice([-1, 0, 1, 2])))
+        todo.append((n, k, rng.choice([0, 0, 2])))
+    coq = []
+    for n, k, lead in todo:
+        chunks = (((1,) * lead,) if lead else ()) + ((1,) * n,)
+        axis = (len(chunks) - 1,)
+        dsk = {}
+        try:
+            ops._tree_reduce(ArrayLayer(layer={}, chunks=chunks, name="leaf"), name="out", out_dsk=dsk, aggregate=lambda *a, **kw: None,
+                             combine=lambda *a, **kw: None, axis=axis, block_index=0, split_every=k)
+        except Exception as e:  # noqa: BLE001
+            run.violation({"property": "C03", "kind": f"_tree_reduce raised {type(e).__name__}: {str(e)[:100]}", "n_blocks": n, "split_every": k, "leading_blocks": lead}, tag="ftree")
+            continue
+        depth = len({key[0] for key in dsk if "-partial-" in str(key[0])}) + 1
+        run.count(f"ftree|{n}|{k}|{lead}", n > k)
+        for li in (range(lead) if lead else [None]):
+            out_key = ("out",) + ((li,) if li is not None else ()) + (0,)
+            try:
+                tree = rebuild(dsk, out_key, "leaf", len(chunks))
+                lv = leaves(tree)
+            except Exception as e:  # noqa: BLE001
+                tree, lv = None, f"cannot rebuild: {type(e).__name__} {e}"
+            if lv != list(range(n)):
+                run.violation({"property": "C03", "kind": "the tree wired by _tree_reduce does not reduce every block of the cohort exactly once, in order",
+                               "n_blocks": n, "split_every": k, "leading_kept_blocks": lead, "leading_index": li, "levels_used": depth, "blocks_reduced": lv,
+                               "how_to_run": "tools/props/c03.py:flox_tree_cases (flox.dask_array_ops._tree_reduce on a fake ArrayLayer)"}, tag="ftree")
+                break
+            coq.append(f"({n}%nat, {k}%nat, {depth}%nat, {C.list_lit([str(x) + '%nat' for x in ser(tree)])})")
+    texts = {f"ftree_{i // 400}": ("From Coq Require Import List Arith.\nFrom Flox Require Import ListX Cases C03Proofs.\nImport ListNotations.\n"
+                                   "Definition cases : list (nat * nat * nat * list nat) := [\n " + ";\n ".join(coq[i:i + 400]) + "\n].\n"
+                                   "Eval vm_compute in (failing floxtree_case_ok cases).\n") for i in range(0, len(coq), 400)}
+    res = C.coq_eval_many(texts, "C03", timeout=900)
+    bad = []
+    for nm, (ok, out) in sorted(res.items()):
+        lists = C.parse_nat_list(out)
+        if not ok or len(lists) != 1:
+            bad.append(out[-300:])
+        elif lists[0]:
+            base = int(nm.split("_")[1]) * 400
+            bad.append(str([coq[base + j][:60] for j in lists[0][:3]]))
+    run.extra["flox_tree_cases_compared_with_model"] = len(coq)
+    run.oblige("correspondence:K2 flox.dask_array_ops._tree_reduce == FloxTree.flox_tree, and n <= k^depth for the depth it really uses", not bad, " | ".join(bad)[:800])
+
+
 def k5_schedules(run, rng, ncases, norders):
     """same lazy result under split_every 2..n, sync / threaded / random topological orders (with re-execution)"""
     import dask
@@ -215,6 +278,7 @@ def run(run: C.Run):
     proofs_ok = P.front(run, translators=("registry",), extra_targets=("Proofs/C03Proofs.vo",))
     thorough = run.tier == "thorough"
     k4_trees(run, 40 if thorough else 18)
+    flox_tree_cases(run, rng, 80 if thorough else 40, 600 if thorough else 120)
     k5_schedules(run, rng, 300 if thorough else 50, 6 if thorough else 2)
     k5_scans(run, rng, 300 if thorough else 60, 6 if thorough else 3)
     # deep / wide trees with ties: every split_every must give the eager answer (not sent to the Coq model)
@@ -234,6 +298,7 @@ def run(run: C.Run):
         "K4: for n blocks (1..18 quick / 40 thorough) and every split_every in 2..min(n,9) plus n and n//2, for dask's tree "
         "(map-reduce) and flox's own _tree_reduce (cohorts), the tree actually evaluated (recorded by wrapping _simple_combine; "
         "block i carries 2**i) must have leaves 0..n-1 in order, arity <= split_every, and equal the Coq build_tree shape; "
+        "K2: flox's _tree_reduce called directly on fake layers (n up to 700 around powers of the fan-in, leading kept axes) vs FloxTree.flox_tree incl. n <= k^depth; "
         "K5: random lazy reductions computed under several split_every, sync, threaded and random topological orders with "
         "re-execution of finished tasks, all compared with the eager result; the same for grouped scans (nancumsum/ffill/bfill); non-trivial = tree deeper than one level / >=3 blocks")
 
